@@ -28,6 +28,8 @@ type c11Req struct {
 	malformed           bool
 	expect              bool
 	special             string // "", "te" (TimeoutError), "hj" (hijack), "close"
+	chunked             bool   // the body is sent with Transfer-Encoding: chunked (one chunk)
+	readK               int    // > 0 (streaming only): the handler reads only that many body bytes and returns, mid-chunk
 	mpSecret            string // non-empty: the body is a multipart/form-data form with the field secret=<this> (pre-parsed by the server)
 	conf                string // per-request RequestConfig asked through HeaderReceived: "rt=MS;wt=MS;mb=N" (X-Req-Conf header)
 	pauseMs             int    // the client waits this long before sending the request
@@ -77,6 +79,10 @@ func (q c11Req) wire() []byte {
 	if q.expect {
 		b.WriteString("Expect: 100-continue\r\n")
 	}
+	if q.chunked && q.body != "" {
+		fmt.Fprintf(&b, "Transfer-Encoding: chunked\r\n\r\n%x\r\n%s\r\n0\r\n\r\n", len(q.body), q.body)
+		return b.Bytes()
+	}
 	if q.body != "" || q.method == "POST" || q.method == "PUT" {
 		fmt.Fprintf(&b, "Content-Length: %d\r\n", len(q.body))
 	}
@@ -117,6 +123,14 @@ func decodeC11(a [][]byte) (cfg connCfg, conns [][]c11Req) {
 			q.conf = f[10]
 			fmt.Sscan(f[11], &q.pauseMs)
 		}
+		if len(f) > 13 {
+			q.chunked = strings.Contains(f[13], "c")
+			for _, kv := range strings.Split(q.query, "&") {
+				if k, v, ok := strings.Cut(kv, "="); ok && k == "rb" {
+					fmt.Sscan(v, &q.readK)
+				}
+			}
+		}
 		if len(f) > 12 && f[12] != "" {
 			q.mpSecret = f[12]
 			q.body = "--XbX\r\nContent-Disposition: form-data; name=\"secret\"\r\n\r\n" + f[12] + "\r\n--XbX--\r\n"
@@ -144,7 +158,7 @@ func decodeC11(a [][]byte) (cfg connCfg, conns [][]c11Req) {
 func init() {
 	Register(&Prop{
 		ID: "C11", NoShrink: true,
-		Rule: "histories of 1..3 connections x 1..4 requests served by one Server (shared ctx pool): structured requests (method, path, query args, custom headers, cookies, form/plain/multipart bodies), " +
+		Rule: "histories of 1..3 connections x 1..4 requests served by one Server (shared ctx pool): structured requests (method, path, query args, custom headers, cookies, form/plain/multipart bodies, streamed bodies chunked or fixed-length and sometimes abandoned mid-way), " +
 			"interleaved with malformed heads, rejected expectations (with and without a declared body), TimeoutError, hijacks, handler-set close, streamed bodies, per-request RequestConfig through HeaderReceived (own body limit, read and write deadlines, with later requests arriving after the deadline); the handler snapshots method/URI/headers/cookies/body/query+post args/multipart form values/user values/default response " +
 			"and then dirties user values, response and request; non-trivial = at least two dispatches in the history; distinct = distinct input",
 		Parallel: true,
@@ -234,6 +248,22 @@ func init() {
 					e.post = sortedKV(pa)
 				}
 				e.hdrs = sortedKV(q.headers)
+				if cfg.Stream && q.readK > 0 && q.readK < len(q.body) {
+					e.body = q.body[:q.readK] // the handler stopped reading there
+					e.post = ""
+					if q.form {
+						// PostArgs() of a streamed form parses what is still unread
+						var pa [][2]string
+						for _, kv := range strings.Split(q.body[q.readK:], "&") {
+							if k, v, ok := strings.Cut(kv, "="); ok {
+								pa = append(pa, [2]string{k, v})
+							} else if kv != "" {
+								pa = append(pa, [2]string{kv, ""})
+							}
+						}
+						e.post = sortedKV(pa)
+					}
+				}
 				if q.mpSecret != "" {
 					e.form = "secret=" + q.mpSecret
 					e.body = "<multipart>"
@@ -285,6 +315,12 @@ func init() {
 					dispReqs = append(dispReqs, q)
 					dispIdx = append(dispIdx, i)
 					if q.special == "hj" || q.special == "close" || (cfg.MaxReqs > 0 && i+1 >= cfg.MaxReqs) {
+						break
+					}
+					if cfg.Stream && q.chunked && q.readK > 0 && q.readK <= len(q.body) && !q.form {
+						// a chunked streamed body left partly unread: the connection is closed after the response (a small
+						// fixed-length body is prefetched completely, so the connection goes on; a form body is drained by the
+						// observer's PostArgs() call)
 						break
 					}
 				}
@@ -508,7 +544,18 @@ func init() {
 						if (method == "POST" || method == "PUT") && !strings.Contains(cfg, "st=1") && !strings.HasPrefix(cfg, "cont=") && r.Chance(15) {
 							mp = fmt.Sprintf("s%d", r.Intn(1000)) // a pre-parsed multipart form: must not be visible to any later request
 						}
-						f := []string{method, fmt.Sprintf("/p%d", r.Intn(5)), strings.Join(qs, "&"), strings.Join(hs, "\x1e"), strings.Join(cks, "\x1e"), body, form, malformed, expect, special, conf, pause, mp}
+						fr := ""
+						if cfg == "st=1" && body != "" && mp == "" {
+							// streamed bodies: chunked or fixed-length, sometimes abandoned by the handler in the middle (the pooled
+							// stream object must not carry that state into the next request that gets it)
+							if r.Chance(50) {
+								fr = "c"
+							}
+							if r.Chance(30) {
+								qs = append(qs, fmt.Sprintf("rb=%d", 1+r.Intn(len(body))))
+							}
+						}
+						f := []string{method, fmt.Sprintf("/p%d", r.Intn(5)), strings.Join(qs, "&"), strings.Join(hs, "\x1e"), strings.Join(cks, "\x1e"), body, form, malformed, expect, special, conf, pause, mp, fr}
 						args = append(args, B(strings.Join(f, "\x1f")))
 					}
 				}
